@@ -507,5 +507,114 @@ def erB (t : Nat) (r : Pool × Bool) : Pool × Bool := (er t r.1, r.2)
 @[simp] theorem stepMeta_er (p : Pool) (m : Nat) : (er t p).stepMeta m = er t (p.stepMeta m) := by
   unfold stepMeta; simp; splits
 
+/-! ### gather: a collecting gather does not look at *how* a child ended -/
+
+/-- every gather of the pool collects exceptions (`return_exceptions=True`) -/
+def Coll (p : Pool) : Prop := ∀ (g : Nat) (G : Gather), p.gathers[g]? = some G → G.retExc = true
+
+theorem Coll.er {p : Pool} (h : Coll p) : Coll (er t p) := h
+theorem Coll.of_gathers {p q : Pool} (h : Coll p) (e : q.gathers = p.gathers) : Coll q := by
+  intro g G hG; rw [e] at hG; exact h g G hG
+
+theorem Coll.modGather {p : Pool} (h : Coll p) (g : Nat) (f : Gather → Gather) (hf : ∀ G, (f G).retExc = G.retExc) :
+    Coll (p.modGather g f) := by
+  intro j G hG
+  simp only [Pool.modGather, List.getElem?_modify] at hG
+  cases hj : p.gathers[j]? with
+  | none => rw [hj] at hG; cases hG
+  | some G0 =>
+    rw [hj] at hG
+    simp only [Option.map_eq_map, Option.map_some, Option.some.injEq] at hG
+    subst hG
+    split
+    · rw [hf]; exact h j G0 hj
+    · exact h j G0 hj
+
+theorem Coll.append {p q : Pool} (hc : Coll p) (G : Gather) (hG : G.retExc = true) (hq : q.gathers = p.gathers ++ [G]) : Coll q := by
+  intro j G' hG'
+  rw [hq] at hG'
+  simp only [List.getElem?_append] at hG'
+  split at hG'
+  · exact hc j G' hG'
+  · cases hj : j - p.gathers.length with
+    | zero => rw [hj] at hG'; simp at hG'; subst hG'; exact hG
+    | succ k => rw [hj] at hG'; simp at hG'
+
+/-- with `return_exceptions=True` the verdict depends on the count alone -/
+theorem gatherVerdict_coll (G : Gather) (co co' : Option Outcome) (h : G.retExc = true) :
+    gatherVerdict G co = gatherVerdict G co' := by
+  simp [gatherVerdict, h]
+
+@[simp] theorem childOutcome_er_isSome (p : Pool) (c : Child) : ((er t p).childOutcome c).isSome = (p.childOutcome c).isSome := by
+  cases c with
+  | task j =>
+    simp only [childOutcome, er_tasks_get]
+    cases p.tasks[j]? with
+    | none => rfl
+    | some k => simp
+  | spawner m => rfl
+
+@[simp] theorem childFinished_er (p : Pool) : (er t p).childFinished = p.childFinished := by
+  funext c
+  cases c with
+  | task j =>
+    simp only [childFinished, er_tasks_get]
+    cases p.tasks[j]? with
+    | none => rfl
+    | some k => simp
+  | spawner m => rfl
+
+theorem gatherChildDone_er (p : Pool) (g i : Nat) (v : Bool) (hc : Coll p) :
+    (er t p).gatherChildDone g i v = er t (p.gatherChildDone g i v) := by
+  unfold gatherChildDone; simp only [er_gathers]
+  cases hG : p.gathers[g]? with
+  | none => rfl
+  | some G =>
+    simp only
+    cases G.children[i]? with
+    | none => rfl
+    | some c =>
+      simp only [gatherVerdict_coll G ((er t p).childOutcome c) (p.childOutcome c) (hc g G hG), childFinished_er, modGather_er]
+      splits <;> simp
+
+theorem gatherChildDone_coll {p : Pool} (hc : Coll p) (g i : Nat) (v : Bool) : Coll (p.gatherChildDone g i v) := by
+  unfold gatherChildDone
+  have h1 : Coll (p.modGather g fun x => { x with nfinished := x.nfinished + 1 }) := hc.modGather _ _ (fun _ => rfl)
+  have h2 : ∀ o, Coll ((p.modGather g fun x => { x with nfinished := x.nfinished + 1 }).modGather g fun x => { x with outer := some o }) :=
+    fun o => h1.modGather _ _ (fun _ => rfl)
+  splits <;> first | exact hc | exact h1 | exact h2 _ | exact (h2 _).of_gathers rfl
+
+@[simp] theorem registerChild_er (p : Pool) (c : Child) (g i : Nat) : (er t p).registerChild c g i = er t (p.registerChild c g i) := by
+  cases c with
+  | task j => simp only [registerChild]; rw [modTask_er _ _ _ (by ertac)]
+  | spawner m => rfl
+
+theorem registerChild_coll {p : Pool} (hc : Coll p) (c : Child) (g i : Nat) : Coll (p.registerChild c g i) := by
+  cases c <;> exact hc.of_gathers rfl
+
+theorem gatherScan_er (g : Nat) (cs : List Child) (i : Nat) (p : Pool) (hc : Coll p) :
+    gatherScan g cs i (er t p) = er t (gatherScan g cs i p) ∧ Coll (gatherScan g cs i p) := by
+  induction cs generalizing i p with
+  | nil => exact ⟨rfl, hc⟩
+  | cons c cs ih =>
+    simp only [gatherScan, childOutcome_er_isSome]
+    split
+    · rw [gatherChildDone_er _ _ _ _ hc]; exact ih _ _ (gatherChildDone_coll hc _ _ _)
+    · rw [registerChild_er]; exact ih _ _ (registerChild_coll hc _ _ _)
+
+/-- a new collecting gather -/
+theorem gatherStart_er (p : Pool) (cs : List Child) (owner n : Nat) (hc : Coll p) :
+    ((er t p).gatherStart cs true owner n).1 = er t (p.gatherStart cs true owner n).1 ∧
+    ((er t p).gatherStart cs true owner n).2 = (p.gatherStart cs true owner n).2 ∧
+    Coll (p.gatherStart cs true owner n).1 := by
+  unfold gatherStart
+  simp only [Bool.not_true, Bool.false_and, Bool.or_false]
+  let G0 : Gather := ⟨cs, 0, if cs.isEmpty then some Outcome.ok else none, owner, true⟩
+  let q : Pool := { p with gathers := p.gathers ++ [G0], ambiguous := p.ambiguous }
+  have h0 : Coll q := hc.append G0 rfl rfl
+  exact ⟨(gatherScan_er _ _ _ q h0).1, rfl, (gatherScan_er (t := t) _ _ _ q h0).2⟩
+
+@[simp] theorem gatherOuter_er (p : Pool) (g : Nat) : (er t p).gatherOuter g = p.gatherOuter g := rfl
+
 end Pool
 end Taskpool
